@@ -388,8 +388,11 @@ static dt_ymcw_t
 __ymcw_add_w(dt_ymcw_t d, int n)
 {
 /* add N weeks to D */
-	signed int tgtc = d.c + n;
+	signed int tgtc;
 
+	/* a month/year step may have left a 5th W that doesn't exist */
+	d = __ymcw_fixup(d);
+	tgtc = d.c + n;
 	return __ymcw_fixup_c(d.y, d.m, tgtc, (dt_dow_t)d.w);
 }
 
@@ -400,6 +403,9 @@ __ymcw_add_d(dt_ymcw_t d, int n)
  * we reduce this to __ymcw_add_w() */
 	signed int aw = n / (signed int)GREG_DAYS_P_WEEK;
 	signed int ad = n % (signed int)GREG_DAYS_P_WEEK;
+
+	/* a month/year step may have left a 5th W that doesn't exist */
+	d = __ymcw_fixup(d);
 
 	if ((ad += d.w) > (signed int)GREG_DAYS_P_WEEK) {
 		ad -= GREG_DAYS_P_WEEK;
@@ -420,8 +426,8 @@ __ymcw_add_d(dt_ymcw_t d, int n)
 		}
 	}
 
-	d.w = (dt_dow_t)ad;
-	return __ymcw_add_w(d, aw);
+	/* the count is that of the old weekday, don't crop it again */
+	return __ymcw_fixup_c(d.y, d.m, d.c + aw, (dt_dow_t)ad);
 }
 
 static dt_ymcw_t
@@ -440,6 +446,9 @@ __ymcw_add_b(dt_ymcw_t d, int n)
 		/* the 5-day arithmetic below needs a Mon-Fri start */
 		return __ymcw_add_d(d, __get_d_equiv((dt_dow_t)d.w, n));
 	}
+
+	/* a month/year step may have left a 5th W that doesn't exist */
+	d = __ymcw_fixup(d);
 
 	if ((ad += d.w) > (signed int)DUWW_BDAYS_P_WEEK) {
 		ad -= DUWW_BDAYS_P_WEEK;
@@ -460,8 +469,8 @@ __ymcw_add_b(dt_ymcw_t d, int n)
 		}
 	}
 
-	d.w = (dt_dow_t)ad;
-	return __ymcw_add_w(d, aw);
+	/* the count is that of the old weekday, don't crop it again */
+	return __ymcw_fixup_c(d.y, d.m, d.c + aw, (dt_dow_t)ad);
 #endif
 }
 
